@@ -21,6 +21,8 @@ def decStr (d : Dec) (hit : Bool) : String :=
   (if d.allowed then "allow:" else "deny:") ++ srcStr d.src ++ (if hit then ":hit" else ":miss")
 
 def outStr : Out → String
+  | .badOracle => "bad-oracle"
+  | .sizes p t => s!"ok p={p} t={t}"
   | .res r => resStr r
   | .dec d h => decStr d h
   | .decs ds =>
@@ -37,8 +39,23 @@ def keys? : List String → Option (List Key)
     | _, _ => none
   | _ => none
 
+def victim? (f : String) : Option Victim :=
+  match f.splitOn ":" with
+  | ["T", t] => (nat? t).map .tok
+  | ["P", t, db, m, p] => (nat? t).map fun t => .perm ⟨t, str? db, str? m, str? p⟩
+  | _ => none
+
+def victims? : List String → Option (List Victim)
+  | [] => some []
+  | f :: rest => do let v ← victim? f; let vs ← victims? rest; pure (v :: vs)
+
+/-- split the fields at the "/" separator (requests / eviction oracle) -/
+def splitOracle (fs : List String) : List String × List String :=
+  (fs.takeWhile (· != "/"), (fs.dropWhile (· != "/")).drop 1)
+
 def parseOp (fs : List String) : Option Op :=
   match fs with
+  | ["clean"] => some .cleanup
   | ["adv", dt] => (nat? dt).map .advance
   | ["corg", name, id] => (nat? id).map (.createOrg (str? name))
   | ["uorg", id, name, en] => do let i ← nat? id; let e ← optBool? en; pure (.updateOrg i (optStr? name) e)
@@ -58,18 +75,53 @@ def parseOp (fs : List String) : Option Op :=
   | ["rvtok", id] => (nat? id).map .revokeToken
   | ["dtok", id] => (nat? id).map .deleteToken
   | ["rottok", id] => (nat? id).map .rotateToken
-  | ["chk", t, db, m, p] => (nat? t).map fun t => .check ⟨t, str? db, str? m, str? p⟩
-  | "bat" :: rest => (keys? rest).map .batch
+  | "chk" :: t :: db :: m :: p :: rest =>
+    (match rest with
+     | [] => (nat? t).map fun t => .check ⟨t, str? db, str? m, str? p⟩ []
+     | "/" :: vs => do let t ← nat? t; let o ← victims? vs; pure (.check ⟨t, str? db, str? m, str? p⟩ o)
+     | _ => none)
+  | "bat" :: rest => do
+    let ks ← keys? (splitOracle rest).1
+    let o ← victims? (splitOracle rest).2
+    pure (.batch ks o)
   | _ => none
+
+/-- `seed id₁ id₂ …`: the node joins a cluster and `SeedRBACFromLocalSQLite` proposes a Create for
+every local organization in id order; the FSM stamps the given ids; each lands in
+`ApplyCreateOrganization`. -/
+def seedOps (st : State) (ids : List Nat) : Option (List Op) :=
+  let orgs := st.tb.orgs.mergeSort (fun a b => a.id ≤ b.id)
+  if orgs.length == ids.length then
+    some (.toCluster :: (orgs.zip ids).map fun p => .applyCreateOrg p.1.name p.2)
+  else none
+
+def runSeed (st : State) : List Op → State × Bool
+  | [] => (st, true)
+  | op :: ops =>
+    let r := step st op
+    let ok := match r.2 with | .res .ok => true | _ => false
+    let rest := runSeed r.1 ops
+    (rest.1, ok && rest.2)
+
+def nats? : List String → Option (List Nat)
+  | [] => some []
+  | f :: rest => do let v ← nat? f; let vs ← nats? rest; pure (v :: vs)
 
 def stepC20 (s : Option State) (fs : List String) : Option State × String :=
   match fs with
-  | ["new", mode, ttl, now] =>
-    match int? ttl, int? now with
-    | some ttl, some now =>
-      if mode == "direct" then (some (init .direct ttl now), "ok")
-      else if mode == "cluster" then (some (init .cluster ttl now), "ok")
+  | ["new", mode, ttl, now, cap] =>
+    match int? ttl, int? now, nat? cap with
+    | some ttl, some now, some cap =>
+      if mode == "direct" then (some (init .direct ttl now cap), "ok")
+      else if mode == "cluster" then (some (init .cluster ttl now cap), "ok")
       else (s, "bad-op")
+    | _, _, _ => (s, "bad-op")
+  | "seed" :: ids =>
+    match s, nats? ids with
+    | some st, some ids =>
+      (match st.mode, seedOps st ids with
+       | .direct, some ops => let r := runSeed st ops; (some r.1, if r.2 then "ok" else "error")
+       | _, _ => (s, "bad-op"))
     | _, _ => (s, "bad-op")
   | _ =>
     match s, parseOp fs with
